@@ -185,7 +185,7 @@ def run(ctx, rep):
     # ---- C02.d -------------------------------------------------------------------------------------
     PR = prog.find1(r"^rustic_core::commands::prune::prune_repository$")
     sws = switch_on_todo(PR)
-    rep.require("C02.d", "executor/switch", len(sws) == 1, where=PR.loc(), what="prune_repository dispatches on pack.to_do")
+    rep.require("C02.d", "executor/switch", len(sws) >= 1, where=PR.loc(), what="prune_repository dispatches on pack.to_do")
     ADD = "rustic_core::index::indexer::Indexer::<BE>::add"
     ADDRM = "rustic_core::index::indexer::Indexer::<BE>::add_remove"
     KEEPT = "rustic_core::commands::prune::PrunePack::into_index_pack"
@@ -198,21 +198,53 @@ def run(ctx, rep):
             cands.append(prog.bodies[callee(t_)])
     delc = [c for c in cands if sum(1 for _, t in c.calls() if "callee" in t and callee(t).endswith("Vec::<T, A>::push")) == 2 and any(cc.get("discr_ty", "").endswith("isize") for cc in [c.term(i) for i in range(len(c.blocks))] if cc["k"] == "switch")]
     rep.require("C02.d", "executor/delete-closure", len(delc) == 1, where=PR.loc(), what="prune_repository has one closure / helper queueing packs for removal (data/tree lists by blob type)")
-    if len(sws) == 1 and len(delc) == 1:
-        sw = sws[0]
+    if len(sws) >= 1 and len(delc) == 1:
+        # the dispatch may be one `match pack.to_do` with nested `if opts.instant_delete`, or a match on the pair
+        # (to_do, instant_delete) that rustc lowers to a tree of switches: the arm for (variant, instant) is the set of
+        # blocks reached inside one loop iteration when every switch on pack.to_do takes the variant's edge and every test
+        # of instant_delete takes the edge for `instant`
+        doms = [x for x in sws if all(C.dominates(PR, x, y) for y in sws)]
+        sw = doms[0] if doms else sws[0]
         DEL = delc[0].path
         RETAIN = re.compile(r"Vec::<T, A>::retain$")
+        loops_ = [C.loop_blocks(PR, h, l) for (l, h) in C.back_edges(PR)]
+        inner_ = sorted([bl for bl in loops_ if all(x in bl for x in sws)], key=len)
+        LOOP = inner_[0] if inner_ else set(range(len(PR.blocks)))
+        BACKS = set(C.back_edges(PR))
+
+        def arm_region(variant, instant):
+            dv = None
+            for v in prog.adt("commands::prune::PackToDo")["variants"]:
+                if v["name"] == variant:
+                    dv = str(v["discr"])
+
+            def forced(bb):
+                if bb in sws:
+                    t_ = PR.term(bb)
+                    tg = [x for v, x in t_["targets"] if v == dv]
+                    return tg[0] if tg else t_["otherwise"]
+                if instant is not None:
+                    r = field_bool_test(PR, bb, "instant_delete")
+                    if r:
+                        return r[0] if instant else r[1]
+                return None
+            seen = set()
+            work = [forced(sw)]
+            first = work[0]
+            while work:
+                bb = work.pop()
+                if bb in seen or bb not in LOOP or bb == sw:
+                    continue
+                seen.add(bb)
+                f = forced(bb)
+                for x in ([f] if f is not None else PR.succ(bb)):
+                    if (bb, x) in BACKS:
+                        continue
+                    work.append(x)
+            return seen, first
 
         def arm(variant, instant):
-            blocks, tgt = arm_blocks(prog, PR, sw, variant)
-            # restrict by opts.instant_delete
-            cut = []
-            for b_ in blocks:
-                r = field_bool_test(PR, b_, "instant_delete")
-                if r:
-                    cut.append((b_, r[1] if instant else r[0]))
-            bl = region_of(PR, sw, tgt, cut_edges=cut)
-            return calls_in(PR, bl)
+            return calls_in(PR, arm_region(variant, instant)[0])
 
         TABLE = {
             # variant: (mode, required, forbidden, meaning)
@@ -240,7 +272,15 @@ def run(ctx, rep):
                               what=f"prune_repository, {var} ({'instant-delete' if m else 'no instant-delete'}): {meaning}" if not missing and not extra else
                                    f"prune_repository, {var} ({'instant-delete' if m else 'no instant-delete'}) should be '{meaning}' but " + (f"lacks {missing} " if missing else "") + (f"does {extra}" if extra else ""))
         # Undecided is an error
-        blocks, tgt = arm_blocks(prog, PR, sw, "Undecided")
+        reg, tgt = arm_region("Undecided", None)
+        # follow forced switches to the first block of the arm proper
+        hops = 0
+        while tgt in sws and hops < 6:
+            t_ = PR.term(tgt)
+            dvu = str([v["discr"] for v in prog.adt("commands::prune::PackToDo")["variants"] if v["name"] == "Undecided"][0])
+            tg = [x for v, x in t_["targets"] if v == dvu]
+            tgt = tg[0] if tg else t_["otherwise"]
+            hops += 1
         rep.check("C02.d", "executor/Undecided", returns_err_only(PR, tgt), where=where(PR, sw), what="an undecided pack aborts prune with an error")
     # check_existing_packs: which decisions release a pack's blobs from the used set
     CE = prog.find1(r"^rustic_core::commands::prune::PrunePlan::check_existing_packs$")
